@@ -219,7 +219,12 @@ def writeInetAddr : Option Bytes → Res Bytes
   | some ip =>
     match to4 ip with
     | some b4 => .ok (writeByte 4 ++ b4)
-    | none => .ok (writeByte 16 ++ (to16 ip).getD [])
+    | none =>
+      -- `dest.Write(inetAddr.To16())`: for a slice that is neither 4 nor 16 bytes `To16()` is nil, 0 bytes are
+      -- written and the "not enough capacity" error is returned
+      match to16 ip with
+      | some b16 => .ok (writeByte 16 ++ b16)
+      | none => .err "not enough capacity to write [inetaddr] IPv6 content"
 
 def lengthOfInetAddr : Option Bytes → Res Nat
   | none => .err "cannot compute nil [inetaddr] length"
